@@ -133,50 +133,85 @@ pub proof fn lemma_skip_owner(t0: OpMap, t: OpMap, ops0: Map<LuaOperatorId, LuaO
     }
     lemma_tm_same(t0, t, ops0, ids, n, n1);
 }
+/// tm_inv only looks at the views: a map with the same keys and the same vectors (as sequences) satisfies it too
+pub proof fn lemma_tm_view_eq(t0: OpMap, t: OpMap, t2: OpMap, ops0: Map<LuaOperatorId, LuaOperator>, ids: Seq<LuaOperatorId>, n: int)
+    requires tm_inv(t0, t, ops0, ids, n),
+        forall|o: LuaOperatorOwner| #[trigger] t2.contains_key(o) == t.contains_key(o),
+        forall|o: LuaOperatorOwner| #[trigger] t2.contains_key(o) ==> t2[o]@.dom() == t[o]@.dom(),
+        forall|o: LuaOperatorOwner, p: LuaOperatorMetaMethod| #![trigger tv_has(t2, o, p)] tv_has(t2, o, p) ==> tv(t2, o, p) == tv(t, o, p),
+    ensures tm_inv(t0, t2, ops0, ids, n),
+{
+    reveal(tm_inv);
+    assert forall|o: LuaOperatorOwner, p: LuaOperatorMetaMethod| tv_has(t2, o, p) == tv_has(t, o, p) by {
+        assert(t2.contains_key(o) == t.contains_key(o));
+        if t2.contains_key(o) { assert(t2[o]@.dom().contains(p) == t[o]@.dom().contains(p)); }
+    }
+    assert forall|o: LuaOperatorOwner| #[trigger] t0.contains_key(o) || !t2.contains_key(o) by {
+        assert(t2.contains_key(o) == t.contains_key(o));
+    }
+    assert forall|o: LuaOperatorOwner, p: LuaOperatorMetaMethod| #![trigger tv_has(t0, o, p)] tv_has(t2, o, p) implies
+        tv_has(t0, o, p) && tv(t2, o, p) == tv(t0, o, p).filter(op_kept(ops0, ids, n, o, p)) by {
+        assert(tv_has(t, o, p));
+    }
+    assert forall|o: LuaOperatorOwner, p: LuaOperatorMetaMethod| #![trigger tv_has(t0, o, p)] tv_has(t0, o, p) && !tv_has(t2, o, p) implies
+        tv(t0, o, p).filter(op_kept(ops0, ids, n, o, p)).len() == 0 by {
+        assert(!tv_has(t, o, p));
+    }
+    if no_empty(t0) {
+        assert forall|o: LuaOperatorOwner| #[trigger] t0.contains_key(o) && t2.contains_key(o) implies t2[o]@.len() > 0 by {
+            assert(t.contains_key(o));
+            assert(t2[o]@.dom() == t[o]@.dom());
+        }
+        assert forall|o: LuaOperatorOwner, p: LuaOperatorMetaMethod| #[trigger] tv_has(t0, o, p) && tv_has(t2, o, p) implies tv(t2, o, p).len() > 0 by {
+            assert(tv_has(t, o, p));
+        }
+    }
+}
 /// exit "the owner's map has no entry for the operator's meta method": the map is handed back with the same view
 pub proof fn lemma_skip_op(t0: OpMap, t: OpMap, ops0: Map<LuaOperatorId, LuaOperator>, ids: Seq<LuaOperatorId>, n: int, n1: int)
     requires 0 <= n < ids.len(), n1 == n + 1, tm_inv(t0, t, ops0, ids, n), ops0.contains_key(ids[n]),
         t.contains_key(ops0[ids[n]].owner), !t[ops0[ids[n]].owner]@.contains_key(ops0[ids[n]].op),
     ensures forall|x: HashMap<LuaOperatorMetaMethod, Vec<LuaOperatorId>>| x@ == t[ops0[ids[n]].owner]@ ==> tm_inv(t0, #[trigger] t.insert(ops0[ids[n]].owner, x), ops0, ids, n1),
 {
+    let owner = ops0[ids[n]].owner;
+    assert forall|x: HashMap<LuaOperatorMetaMethod, Vec<LuaOperatorId>>| x@ == t[owner]@ implies tm_inv(t0, #[trigger] t.insert(owner, x), ops0, ids, n1) by {
+        assert(t.insert(owner, x).dom() =~= t.dom());
+        lemma_skip_op_one(t0, t, t.insert(owner, x), ops0, ids, n, n1);
+    }
+}
+pub proof fn lemma_skip_op_one(t0: OpMap, t: OpMap, t2: OpMap, ops0: Map<LuaOperatorId, LuaOperator>, ids: Seq<LuaOperatorId>, n: int, n1: int)
+    requires 0 <= n < ids.len(), n1 == n + 1, tm_inv(t0, t, ops0, ids, n), ops0.contains_key(ids[n]),
+        t.contains_key(ops0[ids[n]].owner), !t[ops0[ids[n]].owner]@.contains_key(ops0[ids[n]].op),
+        t2.dom() == t.dom(), t2[ops0[ids[n]].owner]@ == t[ops0[ids[n]].owner]@,
+        forall|o: LuaOperatorOwner| o != ops0[ids[n]].owner && t.contains_key(o) ==> #[trigger] t2[o] == t[o],
+    ensures tm_inv(t0, t2, ops0, ids, n1),
+{
     lemma_step(t0, ops0, ids, n, n1);
     let owner = ops0[ids[n]].owner; let op = ops0[ids[n]].op;
-    assert forall|x: HashMap<LuaOperatorMetaMethod, Vec<LuaOperatorId>>| x@ == t[owner]@ implies tm_inv(t0, #[trigger] t.insert(owner, x), ops0, ids, n1) by {
-        let t2 = t.insert(owner, x);
-        assert forall|o: LuaOperatorOwner, p: LuaOperatorMetaMethod| #![trigger tv_has(t0, o, p)] tv_has(t2, o, p) == tv_has(t, o, p) && tv(t2, o, p) == tv(t, o, p) by {
-            if o == owner { assert(t2[o]@ == t[o]@); } else { assert(t2.contains_key(o) == t.contains_key(o)); if t.contains_key(o) { assert(t2[o] == t[o]); } }
-        }
-        assert(tm_inv(t0, t2, ops0, ids, n)) by {
-            reveal(tm_inv);
-            assert forall|o: LuaOperatorOwner| #[trigger] t0.contains_key(o) || !t2.contains_key(o) by {
-                if o != owner { assert(t2.contains_key(o) == t.contains_key(o)); }
-            }
-            assert forall|o: LuaOperatorOwner, p: LuaOperatorMetaMethod| #![trigger tv_has(t0, o, p)] tv_has(t2, o, p) implies
-                tv_has(t0, o, p) && tv(t2, o, p) == tv(t0, o, p).filter(op_kept(ops0, ids, n, o, p)) by { assert(tv_has(t, o, p)); }
-            assert forall|o: LuaOperatorOwner, p: LuaOperatorMetaMethod| #![trigger tv_has(t0, o, p)] tv_has(t0, o, p) && !tv_has(t2, o, p) implies
-                tv(t0, o, p).filter(op_kept(ops0, ids, n, o, p)).len() == 0 by { assert(!tv_has(t, o, p)); }
-            if no_empty(t0) {
-                assert forall|o: LuaOperatorOwner| #[trigger] t0.contains_key(o) && t2.contains_key(o) implies t2[o]@.len() > 0 by {
-                    if o == owner { assert(t2[o]@ == t[o]@); } else { assert(t2.contains_key(o) == t.contains_key(o)); assert(t2[o] == t[o]); }
-                }
-                assert forall|o: LuaOperatorOwner, p: LuaOperatorMetaMethod| #[trigger] tv_has(t0, o, p) && tv_has(t2, o, p) implies tv(t2, o, p).len() > 0 by {
-                    assert(tv_has(t, o, p));
-                }
-            }
-        }
-        assert forall|o: LuaOperatorOwner, p: LuaOperatorMetaMethod| #![trigger tv_has(t0, o, p)] tv_has(t0, o, p) && tv_has(t2, o, p) implies
-            tv(t0, o, p).filter(op_kept(ops0, ids, n1, o, p)) == tv(t0, o, p).filter(op_kept(ops0, ids, n, o, p)) by {
-            assert(tv_has(t, o, p));
-            assert(!(o == owner && p == op));
-        }
-        assert forall|o: LuaOperatorOwner, p: LuaOperatorMetaMethod| #![trigger tv_has(t0, o, p)] tv_has(t0, o, p) && !tv_has(t2, o, p) implies
-            tv(t0, o, p).filter(op_kept(ops0, ids, n1, o, p)).len() <= tv(t0, o, p).filter(op_kept(ops0, ids, n, o, p)).len() by {
-            if !(o == owner && p == op) {
-                assert(tv(t0, o, p).filter(op_kept(ops0, ids, n1, o, p)) == tv(t0, o, p).filter(op_kept(ops0, ids, n, o, p)));
-            }
-        }
-        lemma_tm_same(t0, t2, ops0, ids, n, n1);
+    assert forall|o: LuaOperatorOwner| #[trigger] t2.contains_key(o) == t.contains_key(o) by { assert(t2.dom().contains(o) == t.dom().contains(o)); }
+    assert forall|o: LuaOperatorOwner| #[trigger] t2.contains_key(o) implies t2[o]@.dom() == t[o]@.dom() by {
+        if o != owner { assert(t.contains_key(o)); assert(t2[o] == t[o]); }
     }
+    assert forall|o: LuaOperatorOwner, p: LuaOperatorMetaMethod| #![trigger tv_has(t2, o, p)] tv_has(t2, o, p) implies tv(t2, o, p) == tv(t, o, p) by {
+        if o != owner { assert(t.contains_key(o)); assert(t2[o] == t[o]); }
+    }
+    lemma_tm_view_eq(t0, t, t2, ops0, ids, n);
+    assert forall|o: LuaOperatorOwner, p: LuaOperatorMetaMethod| tv_has(t2, o, p) == tv_has(t, o, p) by {
+        assert(t2.contains_key(o) == t.contains_key(o));
+        if t2.contains_key(o) { assert(t2[o]@.dom() == t[o]@.dom()); assert(t2[o]@.dom().contains(p) == t[o]@.dom().contains(p)); }
+    }
+    assert forall|o: LuaOperatorOwner, p: LuaOperatorMetaMethod| #![trigger tv_has(t0, o, p)] tv_has(t0, o, p) && tv_has(t2, o, p) implies
+        tv(t0, o, p).filter(op_kept(ops0, ids, n1, o, p)) == tv(t0, o, p).filter(op_kept(ops0, ids, n, o, p)) by {
+        assert(tv_has(t, o, p));
+        assert(!(o == owner && p == op));
+    }
+    assert forall|o: LuaOperatorOwner, p: LuaOperatorMetaMethod| #![trigger tv_has(t0, o, p)] tv_has(t0, o, p) && !tv_has(t2, o, p) implies
+        tv(t0, o, p).filter(op_kept(ops0, ids, n1, o, p)).len() <= tv(t0, o, p).filter(op_kept(ops0, ids, n, o, p)).len() by {
+        if !(o == owner && p == op) {
+            assert(tv(t0, o, p).filter(op_kept(ops0, ids, n1, o, p)) == tv(t0, o, p).filter(op_kept(ops0, ids, n, o, p)));
+        }
+    }
+    lemma_tm_same(t0, t2, ops0, ids, n, n1);
 }
 /// the view of an owner's map after `retain(!= id)`, dropping the vector if it became empty
 pub open spec fn inner_after(m: Map<LuaOperatorMetaMethod, Vec<LuaOperatorId>>, m2: Map<LuaOperatorMetaMethod, Vec<LuaOperatorId>>, op: LuaOperatorMetaMethod, v1: Seq<LuaOperatorId>) -> bool {
